@@ -6,6 +6,11 @@ ALL = ["C%02d" % i for i in range(1, 21)]
 
 # id -> (level category, engine, technique, level text, level note, design ref)
 CLAIMED = {
+ "C04": ("model_checking", "E2 explicit-state enumeration over data trees",
+         "bounded exhaustive enumeration of data trees and per-type value alphabets, each exported through a recording node and round-tripped through the real JSON writer and reader, compared with the tree itself",
+         "Every conforming tree up to the size bound over three structural schemas (containers, defaults, nested and compound-key lists, leaf-lists, flat/nested/in-list choices), lists of 0..5 entries in both key orders, and a baseline tree over an all-types schema with each of 23 leaves ranging over the full boundary alphabet of its type (strings: quotes, backslash, control characters, U+2028, non-BMP; 64-bit extremes; decimal64; bits; identityref; empty; binary; union; leaf-lists). Each tree, held by each of three source node implementations, is exported with UpsertInto into a recording reference node - the write events must be exactly the pre-order walk (once each, schema order, entries in source order, only schema defaults extra) - and written as JSON under five writer configurations, read back by the library's reader and written again (equal tree, identical text).",
+         "trusted: harness tree model and recording node, direct loaders/inspectors of the Go map stores; map-backed sources are compared order-insensitively and without compound-key lists (they index by the first key only)",
+         "DESIGN.md section 7 C04"),
  "C09": ("model_checking", "E2 explicit-state search over the data API",
          "explicit-state BFS over upsert histories that alternate between choice cases, on the real editor and stores, with an exclusivity invariant and a reference model checked in every state",
          "Breadth-first search over every sequence (to the depth bound, deduplicated on the directly inspected store content) of upserts that populate one case of a flat, shorthand, nested or in-list choice (each member alone and together), on the reference store, Reflect map and nodeutil.Node map, from JSON and node sources. After every transition: at most one case per choice holds data (computed on the inspected Go data, not through the library), the result equals the reference model (other cases cleared recursively, outside untouched) and the library's own read reports exactly the stored nodes.",
